@@ -29,6 +29,9 @@ fn check(f: u64, t: u16, z: u8, n: u16, al: u8) -> Result<&'static str, String> 
 }
 
 pub fn replay(case: &Value) -> Result<(), String> {
+    if let Some(r) = replay_delegate("C19", case) {
+        return r;
+    }
     check(case["F"].as_u64().unwrap(), case["T"].as_u64().unwrap() as u16, case["Z"].as_u64().unwrap() as u8, case["N"].as_u64().unwrap() as u16, case["Al"].as_u64().unwrap() as u8).map(|_| ())
 }
 
@@ -43,12 +46,30 @@ fn f_values(t: u64, z: u64) -> Vec<u64> {
     // values whose symbol count ceil(F/T) is just around a multiple of 2^32 (narrowing casts)
     let mut m = 1u64;
     while (1u64 << 32) * m * t <= rfcref::MAX_TRANSFER_LENGTH {
-        for r in [0u64, 1, 5, 56403 * z, 56403 * z + 1] {
-            let base = ((1u64 << 32) * m + r) * t;
+        // r < 0: the numerator ceil(F/T) + Z - 1 of the per-block ceiling passes 2^32 although ceil(F/T) does not
+        let rs: Vec<i64> = if m <= 2 {
+            vec![-(z as i64) - 1, -(z as i64), -(z as i64) + 1, -(z as i64) + 2, -255, -2, -1, 0, 1, 5, 56403 * z as i64, 56403 * z as i64 + 1]
+        } else {
+            vec![-1, 0, 1, 5, 56403 * z as i64, 56403 * z as i64 + 1]
+        };
+        for r in rs {
+            let kt = ((1u64 << 32) * m) as i64 + r;
+            if kt <= 0 { continue; }
+            let base = kt as u64 * t; // largest F with ceil(F/T) = kt
             v.push(base);
-            if base > 0 { v.push(base - 1); }
+            v.push(base - 1);
+            if r <= 1 && m <= 2 {
+                v.push(base - t + 1); // smallest F with ceil(F/T) = kt
+            }
         }
         m = if m < 4 { m + 1 } else { m * 2 };
+    }
+    // symbols-per-block count around multiples of 2^16 (the limit 56403 fits 16 bits: a 16-bit narrowing would wrap here)
+    for mm in [1u64, 2, 65536] {
+        for r in [0u64, 1, 56403] {
+            let kt = (65536 * mm + r) * z;
+            v.push(kt * t);
+        }
     }
     // symbols-per-block count around 2^32 (second narrowing): ceil(Kt/Z) = 2^32 + small
     let kt = ((1u128 << 32) + 3) * z as u128;
@@ -68,7 +89,7 @@ fn smallest_non_divisor(t: u64) -> u64 {
 pub fn run(ctx: &Ctx) -> i32 {
     let st = Stats::new();
     let ts: Vec<u16> = if ctx.quick() {
-        let mut v: Vec<u16> = (1..=300).collect();
+        let mut v: Vec<u16> = (1..=if is_checked_build() { 64 } else { 300 }).collect();
         v.extend_from_slice(&[511, 512, 513, 1023, 1024, 1025, 1280, 4096, 16383, 16384, 32767, 32768, 32769, 65534, 65535]);
         v
     } else {
@@ -90,7 +111,7 @@ pub fn run(ctx: &Ctx) -> i32 {
         }
         als.sort_unstable();
         als.dedup();
-        let ns: &[u16] = if ctx.quick() || t <= 300 { &[1, 65535] } else { &[1] };
+        let ns: &[u16] = if (ctx.quick() || t <= 300) && !is_checked_build() { &[1, 65535] } else { &[1] };
         for z in 1..=255u8 {
             for f in f_values(t as u64, z as u64) {
                 for &al in &als {
@@ -119,6 +140,12 @@ pub fn run(ctx: &Ctx) -> i32 {
         st.eval(evals);
         st.merge_counters(&local);
     });
+    if ctx.flag("--child") {
+        return child_emit(&st);
+    }
+    // the same grid in the build with overflow checks: a valid configuration must not be refused by an
+    // arithmetic-overflow panic, and refusals must not depend on the build
+    run_child_and_merge(ctx, &st, "RQ_BIN_CHECKED", "checked", &[]);
     // distinct non-trivial: points where the 56403-symbols-per-block limit or the 2^32 narrowing is what decides
     st.nontriv(st.counter("decided_by_block_limit"));
     st.outcome("accept");
@@ -128,7 +155,7 @@ pub fn run(ctx: &Ctx) -> i32 {
     }
     finish(ctx, &st, Finish {
         level: "exploration",
-        rule: format!("grid: T in {} x Z in 1..=255 x F in B_F(T,Z) (1, T, T+1, 56403*Z*T+{{-1,0,1}}, 942574504275+{{-1,0,1}}, 2^40-1, and every F with ceil(F/T) = 2^32*m + r, r in {{0,1,5,56403Z,56403Z+1}}, and F-1) x Al in {{1, T, smallest non-divisor of T, (a proper divisor, 255)}} x N in {{1,(65535)}}; oracle = u128 predicate F<=942574504275 && Al|T && ceil(ceil(F/T)/Z)<=56403; accessors must echo. distinct_nontrivial = points (all distinct) where F <= 942574504275 and Al | T, so that the symbols-per-block limit incl. the 2^32 wrap-around decides.", if ctx.quick() { "1..=300 and 15 boundary values".to_string() } else { "1..=65535 (all)".to_string() }),
+        rule: format!("grid: T in {} x Z in 1..=255 x F in B_F(T,Z) (1, T, T+1, 56403*Z*T+{{-1,0,1}}, 942574504275+{{-1,0,1}}, 2^40-1, every F with ceil(F/T) = 2^32*m + r, r in {{-Z-1..-Z+2,-255,-254,-2,-1,0,1,5,56403Z-1..56403Z+1}} (largest, largest-1 and smallest such F), and ceil(F/T)/Z around multiples of 2^16) x Al in {{1, T, smallest non-divisor of T, (a proper divisor, 255)}} x N in {{1,(65535)}}; oracle = u128 predicate F<=942574504275 && Al|T && ceil(ceil(F/T)/Z)<=56403; accessors must echo; the whole grid again in the overflow-checking build. distinct_nontrivial = points (all distinct) where F <= 942574504275 and Al | T, so that the symbols-per-block limit incl. the 2^32 wrap-around decides.", if ctx.quick() { "1..=300 and 15 boundary values".to_string() } else { "1..=65535 (all)".to_string() }),
         exhaustive: false,
         assumptions: vec!["limits as documented in ObjectTransmissionInformation::new (RFC 6330 errata 5548: F <= 942574504275; 4.4.1.2: ceil(ceil(F/T)/Z) <= 56403)".into(), "F off the boundary set is not enumerated: the predicate is monotone in F between the listed breakpoints (for the reference; for the implementation that is exactly what the 2^32 wrap points probe)".into()],
         extra: Map::new(),
